@@ -5,7 +5,7 @@ implementation disagree), broken-obligation (a generated definition / proof no l
 import glob, json, os, subprocess, sys, time
 os.chdir('/verif')
 ids = sys.argv[1:] or sorted(os.path.basename(d) for d in glob.glob('seeded/C*-*'))
-res_path = 'seeded/RESULTS.json'
+res_path = os.environ.get('MATRIX_RESULTS', 'seeded/RESULTS.json')
 results = json.load(open(res_path)) if os.path.exists(res_path) else {}
 head = subprocess.run(['git', '-C', '/repo', 'rev-parse', '--short', 'HEAD'], capture_output=True, text=True).stdout.strip()
 for mid in ids:
